@@ -83,6 +83,68 @@ def grouping_family(counters, digests, violations):
                 break
 
 
+class Scaler:
+    def __init__(self, k):
+        self.k = k
+
+    def scale(self, x):
+        return x * self.k
+
+
+def _double(x):
+    return 2 * x
+
+
+def _triple(x):
+    return 3 * x
+
+
+def _shift(x):
+    return x - 7.5
+
+
+def rebound_function_case(rng, counters, violations):
+    """Function containers: the callable slot itself (fn['g']) or the object whose method is called (v['obj']) is a leaf
+    reference like any other -- a setter generated for it must agree with assigning through the manager, and so must
+    every later setter call."""
+    import xdeps
+
+    def build():
+        m = xdeps.Manager()
+        v = {"x": 1.0, "y": 0.0, "z": 0.0, "w": 0.0, "obj": Scaler(10.0)}
+        fn = {"g": _double, "h": _shift}
+        r, f = m.ref(v, "v"), m.ref(fn, "fn")
+        r["y"] = f["g"](r["x"]) + 1
+        r["z"] = r["obj"].scale(r["y"])
+        r["w"] = f["h"](r["z"]) + f["g"](r["x"])
+        return m, v, fn, r, f
+    ma, va, fna, ra, fa = build()      # driven by generated setters
+    mb, vb, fnb, rb, fb = build()      # driven by assignments through the manager
+    steps = [("x", 2.0)]
+    pool = [("g", _triple), ("x", 5.0), ("obj", Scaler(100.0)), ("h", _double), ("x", -3.0), ("g", _shift), ("obj", Scaler(0.5)), ("x", 0.25)]
+    rng.shuffle(pool)
+    steps += pool[:rng.randrange(4, 8)]
+    setters = {}
+    for what, val in steps:
+        ref_a = fa[what] if what in ("g", "h") else ra[what]
+        ref_b = fb[what] if what in ("g", "h") else rb[what]
+        try:
+            if what not in setters:
+                setters[what] = ma.gen_fun("set_" + what, a=ref_a)
+            setters[what](val)
+            mb.set_value(ref_b, val)
+        except Exception as exc:
+            violations.append({"what": "C13 function containers: step %s raised %s: %s" % (what, type(exc).__name__, str(exc)[:200])})
+            return
+        counters["rebound_function_steps"] = counters.get("rebound_function_steps", 0) + 1
+        sa = {k: canon(va[k]) for k in ("x", "y", "z", "w")}
+        sb = {k: canon(vb[k]) for k in ("x", "y", "z", "w")}
+        if sa != sb:
+            violations.append({"what": "C13 function containers: after setting %s the generated setter leaves %s, assignment through the manager %s" % (
+                what, sa, sb), "steps": [s_[0] for s_ in steps]})
+            return
+
+
 def run_shard(spec):
     import xdeps.refs as R
     import xdeps.tasks as T
@@ -93,6 +155,10 @@ def run_shard(spec):
          "unreg_task": 0}
     if not spec.get("replay"):
         grouping_family(counters, digests, violations)
+        for _ in range(30):
+            if violations:
+                break
+            rebound_function_case(rng, counters, violations)
     for n in range(spec["managers"] if not spec.get("replay") else 30):
         hg = gen.HistoryGen(rng, layered=True, depth=rng.choice([2, 3, 4]), profile=PROFILE, weights=W)
         ls = lockstep.LockStep(hg.world)
